@@ -431,6 +431,30 @@ theorem batchLoop_total (p : Payload) (b : Nat) (hb : 2 ≤ b) :
     · rename_i hge
       exact ⟨(d, a), rfl, by simp; omega⟩
 
+/-- What the batching part of `reduce` hands to the final reduction: an array `x.2` and a dimension `x.1` of it such
+that reducing `x.1` of `x.2` with `p` gives, at every position, what reducing `d` of `a` gives; the other dimensions
+(each with a coordinate) and the scalar coordinates are those of `a`. Batchability of the payload FUNCTION is needed
+only where the payload is marked batchable (otherwise `reduce` refuses to batch). -/
+theorem reduceBatched_spec {V : Type} (S : Sem V) (p : Payload) (hB : p.batchable = true → IsBatchable (p.apply S))
+    (a : NodeArray) (d : String) (b : Nat) (hfresh : BatchFresh a d) (hdim : (a.findDim d).isSome)
+    (x : String × NodeArray) (hx : reduceBatched p d b a = .ok x) :
+    (∀ ix, p.apply S (valsAlong S x.2 x.1 ix) = p.apply S (valsAlong S a d ix)) ∧
+      allIndexed (dropDim x.2.dims x.1) = allIndexed (dropDim a.dims d) ∧ x.2.scalars = a.scalars ∧
+      (x.2.findDim x.1).isSome := by
+  simp only [reduceBatched] at hx
+  split at hx
+  · rename_i hb1
+    split at hx
+    · cases hx
+    · split at hx
+      · split at hx
+        · cases hx
+        · rename_i hnb
+          have hpb : p.batchable = true := by simpa using hnb
+          exact batchLoop_spec S p (hB hpb) b (by omega) _ 0 d a x.1 x.2 hfresh hdim hx
+      · cases hx; exact ⟨fun _ => rfl, rfl, rfl, hdim⟩
+  · cases hx; exact ⟨fun _ => rfl, rfl, rfl, hdim⟩
+
 theorem reduce_eq (p : Payload) (d : String) (b : Nat) (keep : Bool) (a : NodeArray) (hd : d ≠ "") :
     reduce p none d b keep a = (reduceBatched p d b a >>= reduceFinish p none keep a d) := by
   simp [reduce, defaultDim, hd]
@@ -470,9 +494,9 @@ theorem eval_reduceCore {V : Type} (S : Sem V) (p : Payload) (d : String) (a : N
 theorem addDim_reduceCore (p : Payload) (dr : String) (x : NodeArray) (a : NodeArray) (d : String)
     (hs : a.scalar? d = none) (hdims : allIndexed (dropDim x.dims dr) = allIndexed (dropDim a.dims d))
     (hsc : x.scalars = a.scalars) :
-    addDim (reduceCore p dr x) d opaqueLabel (a.axisOf d) =
+    addDim (reduceCore p dr x) d (keptLabel a d) (a.axisOf d) =
       .ok { reduceCore p dr x with
-            dims := (allIndexed (dropDim a.dims d)).take (a.axisOf d) ++ [{ name := d, labels := [opaqueLabel], indexed := true }]
+            dims := (allIndexed (dropDim a.dims d)).take (a.axisOf d) ++ [{ name := d, labels := [keptLabel a d], indexed := true }]
                       ++ (allIndexed (dropDim a.dims d)).drop (a.axisOf d) } := by
   have h1 : ¬ ((reduceCore p dr x).dimNames.contains d) = true := by
     simp only [NodeArray.dimNames, reduceCore, hdims]
@@ -498,20 +522,46 @@ def argVals {V : Type} : List (ArgV V) → List V
   | .val v :: rest => v :: argVals rest
   | .lit _ :: rest => argVals rest
 
+/-- all arguments are values (no literal among them) -/
+def allVals {V : Type} : List (ArgV V) → Option (List V)
+  | [] => some []
+  | .val v :: rest => (allVals rest).map (v :: ·)
+  | .lit _ :: _ => none
+
+/-- What the exact interpretation does NOT interpret — a function name it does not know, an argument pattern it does
+not know, `pow` with an exponent other than 2 (in particular the square root `pow(·, 1/2)`) — is an explicit OPAQUE
+symbol: the parameter `unk`. Every theorem about `ratSem` is quantified over `unk`, so none can hold because an unknown
+function happened to be totalised to some number. -/
+abbrev Unk := String → List (String × Static) → List (ArgV Rat) → Rat
+
+/-- population variance in the textbook form: the mean of the squared deviations from the mean -/
+def popVar (xs : List Rat) : Rat :=
+  (xs.map (fun x => (x - xs.sum / (xs.length : Rat)) * (x - xs.sum / (xs.length : Rat)))).sum / (xs.length : Rat)
+
 /-- The payload functions the `mean`/`std` rewrites use, on exact rationals (one number per node:
-array payloads are element-wise, so this is the value of any one element). -/
-def ratFn : String → List (String × Static) → List (ArgV Rat) → Rat
-  | "sum", _, args => (argVals args).sum
-  | "mean", _, args => (argVals args).sum / ((argVals args).length : Rat)
+array payloads are element-wise, so this is the value of any one element; the reductions are the ones over SEVERAL
+arrays, where both backends fix the axis themselves — backend kwargs are not interpreted, the tie compares them
+structurally as part of the node). `std` is the opaque root of the population variance. -/
+def ratFn (unk : Unk) : String → List (String × Static) → List (ArgV Rat) → Rat
+  | "sum", kw, args => match allVals args with
+    | some vs => vs.sum
+    | none => unk "sum" kw args
+  | "mean", kw, args => match allVals args with
+    | some vs => vs.sum / (vs.length : Rat)
+    | none => unk "mean" kw args
+  | "std", kw, args => match allVals args with
+    | some vs => unk "pow" [] [.val (popVar vs), .lit (.num (1 / 2))]
+    | none => unk "std" kw args
   | "divide", _, [.val x, .lit (.num q)] => x / q
   | "divide", _, [.val x, .val y] => x / y
-  | "pow", _, [.val x, .lit (.num q)] => if q = 2 then x * x else 0
+  | "pow", kw, [.val x, .lit (.num q)] => if q = 2 then x * x else unk "pow" kw [.val x, .lit (.num q)]
   | "subtract", _, [.val x, .val y] => x - y
   | "multiply", _, [.val x, .val y] => x * y
   | "add", _, [.val x, .val y] => x + y
-  | _, _, _ => 0
+  | "trivial", _, [.val x] => x
+  | fn, kw, args => unk fn kw args
 
-def ratSem (src : Nat → Rat) : Sem Rat := { src := src, fn := ratFn, out := fun _ v => v }
+def ratSem (src : Nat → Rat) (unk : Unk) : Sem Rat := { src := src, fn := ratFn unk, out := fun _ v => v }
 
 namespace Aux
 
@@ -531,12 +581,17 @@ theorem argVals_map_val {V : Type} (vals : List V) : argVals (vals.map ArgV.val)
   | nil => rfl
   | cons v vs ih => simp [argVals, ih]
 
-theorem apply_sum (src : Nat → Rat) (kw : List (String × Static)) (vals : List Rat) :
-    (backendPayload "sum" kw).apply (ratSem src) vals = vals.sum := by
-  simp only [Payload.apply, backendPayload, fillTmpl_nil, resolve_inputs, ratSem, ratFn, argVals_map_val]
+theorem allVals_map_val {V : Type} (vals : List V) : allVals (vals.map ArgV.val) = some vals := by
+  induction vals with
+  | nil => rfl
+  | cons v vs ih => simp [allVals, ih]
 
-theorem rep_sum (src : Nat → Rat) (kw : List (String × Static)) (g : List Rat) :
-    rep ((backendPayload "sum" kw).apply (ratSem src)) g = g.sum := by
+theorem apply_sum (src : Nat → Rat) (unk : Unk) (kw : List (String × Static)) (vals : List Rat) :
+    (backendPayload "sum" kw).apply (ratSem src unk) vals = vals.sum := by
+  simp only [Payload.apply, backendPayload, fillTmpl_nil, resolve_inputs, ratSem, ratFn, allVals_map_val]
+
+theorem rep_sum (src : Nat → Rat) (unk : Unk) (kw : List (String × Static)) (g : List Rat) :
+    rep ((backendPayload "sum" kw).apply (ratSem src unk)) g = g.sum := by
   match g with
   | [] => simp [rep, apply_sum]
   | [x] => simp [rep, Rat.add_zero]
@@ -548,14 +603,14 @@ theorem sum_flatten_rat (gs : List (List Rat)) : gs.flatten.sum = (gs.map List.s
   | cons g gs ih => simp [List.sum_append, ih]
 
 /-- `sum` over exact rationals is batchable (the instance used in `c13_mean_std`) -/
-theorem sum_batchable (src : Nat → Rat) (kw : List (String × Static)) :
-    IsBatchable ((backendPayload "sum" kw).apply (ratSem src)) := by
+theorem sum_batchable (src : Nat → Rat) (unk : Unk) (kw : List (String × Static)) :
+    IsBatchable ((backendPayload "sum" kw).apply (ratSem src unk)) := by
   intro gs _ _
   rw [apply_sum, apply_sum, sum_flatten_rat]
   congr 1
   apply List.map_congr_left
   intro g _
-  exact rep_sum src kw g
+  exact rep_sum src unk kw g
 
 theorem flatIndex_indep (ds : List Dim) (ix : Ix) (name : String) (v : Nat) (h : name ∉ ds.map (·.name)) :
     flatIndex ds (ix.set name v) = flatIndex ds ix := by
@@ -598,9 +653,10 @@ open Aux
 def restDims (a : NodeArray) (d : String) : List Dim := allIndexed (dropDim a.dims d)
 
 /-- `keep_dim`: the reduced dimension comes back at its original axis with ONE coordinate
-(whose label the docstring does not specify: `opaqueLabel`) -/
+(the docstring does not specify its label; the code builds it from the first and the last label of the reduced
+dimension: `keptLabel`) -/
 def keptDims (a : NodeArray) (d : String) : List Dim :=
-  (restDims a d).take (a.axisOf d) ++ [{ name := d, labels := [opaqueLabel], indexed := true }] ++ (restDims a d).drop (a.axisOf d)
+  (restDims a d).take (a.axisOf d) ++ [{ name := d, labels := [keptLabel a d], indexed := true }] ++ (restDims a d).drop (a.axisOf d)
 
 /-- **Value and dimensions of a non-batched reduce.** For every payload `p`, every array `a`, every
 dimension `d` of `a`: `a.reduce(p, dim=d, keep_dim=keep)` succeeds; its dimensions are `a`'s
@@ -724,7 +780,7 @@ theorem c13_batch_invariant {V : Type} (S : Sem V) (p : Payload) (hB : IsBatchab
     obtain ⟨hv, hdims, hsc, hsome⟩ := spec
     have n1 : ¬ ((x.2.findDim x.1).isNone = true) := not_isNone_of_isSome _ hsome
     have n0 : ¬ ((a.findDim d).isNone = true) := not_isNone_of_isSome _ hdim
-    simp only [reduceFinish, n1, n0, withYields, ↓reduceIte] at h h0
+    simp only [reduceFinish, n1, n0, withYields] at h h0
     cases keep with
     | false =>
       simp only [Bool.false_eq_true, ↓reduceIte] at h h0
@@ -749,42 +805,42 @@ theorem c13_batch_invariant {V : Type} (S : Sem V) (p : Payload) (hB : IsBatchab
 /-- non-vacuity of `c13_batch_terminates` / `c13_batch_invariant`: `sum` on exact rationals is
 batchable, a 2×5 source array is batch-fresh; batch size 2 over the dimension of size 5 gives
 chunks 2,2,1 (the last passed through), then 2,1, then the final reduce. -/
-example : ∃ r r0,
+example (unk : Unk) : ∃ r r0,
     reduce (backendPayload "sum" []) none "d1" 2 false
       (fromSource [("d0", [.int 0, .int 10]), ("d1", [.int 0, .int 10, .int 20, .int 30, .int 40])] 0) = .ok r ∧
     reduce (backendPayload "sum" []) none "d1" 0 false
       (fromSource [("d0", [.int 0, .int 10]), ("d1", [.int 0, .int 10, .int 20, .int 30, .int 40])] 0) = .ok r0 ∧
     (r.dims = r0.dims ∧ r.scalars = r0.scalars ∧
-      ∀ ix, (r.node ix).eval (ratSem (fun i => (i : Rat))) = (r0.node ix).eval (ratSem (fun i => (i : Rat)))) := by
+      ∀ ix, (r.node ix).eval (ratSem (fun i => (i : Rat)) unk) = (r0.node ix).eval (ratSem (fun i => (i : Rat)) unk)) := by
   obtain ⟨r, hr⟩ := c13_batch_terminates (backendPayload "sum" [])
     (fromSource [("d0", [.int 0, .int 10]), ("d1", [.int 0, .int 10, .int 20, .int 30, .int 40])] 0) "d1" 2
     (by decide) (by decide) (by decide) (by decide)
-  obtain ⟨r0, hr0, -⟩ := c13_reduce (ratSem (fun i => (i : Rat))) (backendPayload "sum" [])
+  obtain ⟨r0, hr0, -⟩ := c13_reduce (ratSem (fun i => (i : Rat)) unk) (backendPayload "sum" [])
     (fromSource [("d0", [.int 0, .int 10]), ("d1", [.int 0, .int 10, .int 20, .int 30, .int 40])] 0) "d1" false
     (by decide) (by decide) (by decide)
-  exact ⟨r, r0, hr, hr0, c13_batch_invariant (ratSem (fun i => (i : Rat))) _ (sum_batchable _ _) _ "d1" 2 false
+  exact ⟨r, r0, hr, hr0, c13_batch_invariant (ratSem (fun i => (i : Rat)) unk) _ (sum_batchable _ unk _) _ "d1" 2 false
     (by decide) (by decide) (fromSource_batchFresh _ _ _ (by decide)) r r0 hr hr0⟩
 
 /-! ### C13 — mean / std rewrites -/
 
 namespace Aux
 
-theorem eval_divide (src : Nat → Rat) (q : Rat) (s : NodeArray) (ix : Ix) :
-    ((arithScalar "divide" (.num q) s).node ix).eval (ratSem src) = (s.node ix).eval (ratSem src) / q := by
+theorem eval_divide (src : Nat → Rat) (unk : Unk) (q : Rat) (s : NodeArray) (ix : Ix) :
+    ((arithScalar "divide" (.num q) s).node ix).eval (ratSem src unk) = (s.node ix).eval (ratSem src unk) / q := by
   simp [arithScalar, map, withYields, mkNode, Expr.eval, evalList, fillTmpl, resolve, ratSem, ratFn]
 
-theorem eval_square (src : Nat → Rat) (s : NodeArray) (ix : Ix) :
-    ((arithScalar "pow" (.num 2) s).node ix).eval (ratSem src)
-      = (s.node ix).eval (ratSem src) * (s.node ix).eval (ratSem src) := by
+theorem eval_square (src : Nat → Rat) (unk : Unk) (s : NodeArray) (ix : Ix) :
+    ((arithScalar "pow" (.num 2) s).node ix).eval (ratSem src unk)
+      = (s.node ix).eval (ratSem src unk) * (s.node ix).eval (ratSem src unk) := by
   simp [arithScalar, map, withYields, mkNode, Expr.eval, evalList, fillTmpl, resolve, ratSem, ratFn]
 
-theorem eval_subtract (src : Nat → Rat) (e1 e2 : Expr) :
-    (mkNode { fn := "subtract" } [e1, e2]).eval (ratSem src) = e1.eval (ratSem src) - e2.eval (ratSem src) := by
+theorem eval_subtract (src : Nat → Rat) (unk : Unk) (e1 e2 : Expr) :
+    (mkNode { fn := "subtract" } [e1, e2]).eval (ratSem src unk) = e1.eval (ratSem src unk) - e2.eval (ratSem src unk) := by
   simp [mkNode, Expr.eval, evalList, fillTmpl, resolve, ratSem, ratFn, List.range_succ]
 
-theorem apply_mean (src : Nat → Rat) (kw : List (String × Static)) (vals : List Rat) :
-    (backendPayload "mean" kw).apply (ratSem src) vals = vals.sum / (vals.length : Rat) := by
-  simp only [Payload.apply, backendPayload, fillTmpl_nil, resolve_inputs, ratSem, ratFn, argVals_map_val]
+theorem apply_mean (src : Nat → Rat) (unk : Unk) (kw : List (String × Static)) (vals : List Rat) :
+    (backendPayload "mean" kw).apply (ratSem src unk) vals = vals.sum / (vals.length : Rat) := by
+  simp only [Payload.apply, backendPayload, fillTmpl_nil, resolve_inputs, ratSem, ratFn, allVals_map_val]
 
 theorem valsAlong_length {V : Type} (S : Sem V) (a : NodeArray) (d : String) (ix : Ix) :
     (valsAlong S a d ix).length = a.dimSize d := by
@@ -796,12 +852,12 @@ end Aux
 `b` (the rewrite `sum(batch_size=b).divide(n)` is taken for `1 < b < n`, the plain `mean` node
 otherwise), with or without `keep_dim`: every node of `a.mean(d, b)` evaluates to
 (Σ values along `d`) / (number of ELEMENTS along `d`). -/
-theorem c13_mean_std_mean (src : Nat → Rat) (a : NodeArray) (d : String) (b : Nat) (keep : Bool)
+theorem c13_mean_std_mean (src : Nat → Rat) (unk : Unk) (a : NodeArray) (d : String) (b : Nat) (keep : Bool)
     (kw : List (String × Static))
     (hd : d ≠ "") (hs : a.scalar? d = none) (hfresh : BatchFresh a d) (r : NodeArray)
     (h : mean d b keep kw a = .ok r) :
     r.dims = (if keep then keptDims a d else restDims a d) ∧
-    ∀ ix, (r.node ix).eval (ratSem src) = (valsAlong (ratSem src) a d ix).sum / (a.dimSize d : Rat) := by
+    ∀ ix, (r.node ix).eval (ratSem src unk) = (valsAlong (ratSem src unk) a d ix).sum / (a.dimSize d : Rat) := by
   simp only [mean, defaultDim, hd, ↓reduceIte, bind, Except.bind] at h
   split at h
   · cases h
@@ -814,7 +870,7 @@ theorem c13_mean_std_mean (src : Nat → Rat) (a : NodeArray) (d : String) (b : 
         cases hf : a.findDim d with
         | none => simp [hf] at h
         | some x => simp
-      obtain ⟨r', hr', hdims, -, hv⟩ := c13_reduce (ratSem src) (backendPayload "mean" kw) a d keep hd hdim hs
+      obtain ⟨r', hr', hdims, -, hv⟩ := c13_reduce (ratSem src unk) (backendPayload "mean" kw) a d keep hd hdim hs
       rw [hr'] at h
       cases h
       refine ⟨hdims, ?_⟩
@@ -831,8 +887,8 @@ theorem c13_mean_std_mean (src : Nat → Rat) (a : NodeArray) (d : String) (b : 
           apply dimSize_pos_of_lt a d b
           simp at hnb
           omega
-        obtain ⟨r0, hr0, hdims0, -, hv0⟩ := c13_reduce (ratSem src) (backendPayload "sum" kw) a d keep hd hdim hs
-        obtain ⟨hdims, -, hv⟩ := c13_batch_invariant (ratSem src) _ (sum_batchable src kw) a d b keep hd hs hfresh s r0 hsum hr0
+        obtain ⟨r0, hr0, hdims0, -, hv0⟩ := c13_reduce (ratSem src unk) (backendPayload "sum" kw) a d keep hd hdim hs
+        obtain ⟨hdims, -, hv⟩ := c13_batch_invariant (ratSem src unk) _ (sum_batchable src unk kw) a d b keep hd hs hfresh s r0 hsum hr0
         refine ⟨?_, ?_⟩
         · show s.dims = _
           rw [hdims, hdims0]
@@ -1010,15 +1066,16 @@ theorem c13_value_join_existing (a b r : NodeArray) (d : String) (x y : Dim)
         simp only [List.mem_map] at hz
         obtain ⟨w, _, hw⟩ := hz
         split at hw
-        · subst hw; simp [hidx]
+        · subst hw; simp
         · subst hw; rename_i hne; exact absurd hzn hne
 
 /-- `join` on a dimension name neither array knows: a new dimension at axis 0 of size 2;
-position 0 is `a`, position 1 is `b` (matched by dimension NAME, whatever `b`'s axis order). -/
+position 0 is `a`, position 1 is `b` (matched by dimension NAME, whatever `b`'s axis order); the other dimensions
+are `a`'s followed by those only `b` has (the arrays may have different dimensions: each is broadcast by name). -/
 theorem c13_value_join_new (a b r : NodeArray) (dim : DimArg)
     (ha : a.findDim dim.dimName = none) (hb : b.findDim dim.dimName = none) (h : join a b dim false = .ok r) :
     (∀ ix, r.node ix = if ix dim.dimName = 0 then a.node ix else b.node ix) ∧
-    r.dims.map (·.name) = dim.dimName :: a.dims.map (·.name) ∧
+    r.dims.map (·.name) = dim.dimName :: (a.dims.map (·.name) ++ (b.dims.filter (fun y => (a.findDim y.name).isNone)).map (·.name)) ∧
     (∀ z, r.dims.head? = some z → z.labels.length = 2) := by
   have hc : joinCore a b dim = joinNew a b dim := by
     simp only [joinCore, ha, hb]
@@ -1029,36 +1086,38 @@ theorem c13_value_join_new (a b r : NodeArray) (dim : DimArg)
     · cases h
     · split at h
       · cases h
-      · rename_i nd hnd
-        cases h
-        have hname : nd.name = dim.dimName ∧ nd.labels.length = 2 := by
-          unfold joinNewDim at hnd
-          split at hnd
-          · split at hnd
-            · cases hnd; rename_i h2; exact ⟨rfl, h2⟩
+      · split at h
+        · cases h
+        · rename_i nd hnd
+          cases h
+          have hname : nd.name = dim.dimName ∧ nd.labels.length = 2 := by
+            unfold joinNewDim at hnd
+            split at hnd
+            · split at hnd
+              · cases hnd; rename_i h2; exact ⟨rfl, h2⟩
+              · cases hnd
+            · cases hnd; exact ⟨rfl, by simp [intLabels]⟩
+            · cases hnd; exact ⟨rfl, rfl⟩
             · cases hnd
-          · cases hnd; exact ⟨rfl, by simp [intLabels]⟩
-          · cases hnd; exact ⟨rfl, rfl⟩
-          · cases hnd
-        refine ⟨fun _ => rfl, ?_, ?_⟩
-        · simp only [List.map_cons, hname.1, mergeDims, List.map_map]
-          congr 1
-          apply List.map_congr_left
-          intro z _
-          simp only [Function.comp]
-          split
-          · rename_i y hf
-            have hyn : y.name = z.name := by simpa using List.find?_some hf
+          refine ⟨fun _ => rfl, ?_, ?_⟩
+          · simp only [List.map_cons, hname.1, mergeDims, List.map_append, List.map_map]
+            congr 2
+            apply List.map_congr_left
+            intro z _
+            simp only [Function.comp]
             split
-            · rfl
-            · split
-              · exact hyn
+            · rename_i y hf
+              have hyn : y.name = z.name := by simpa using List.find?_some hf
+              split
               · rfl
-          · rfl
-        · intro z hz
-          simp at hz
-          subst hz
-          exact hname.2
+              · split
+                · exact hyn
+                · rfl
+            · rfl
+          · intro z hz
+            simp at hz
+            subst hz
+            exact hname.2
 
 /-! ### C13 — arithmetic between actions, and the `std` rewrite -/
 
@@ -1131,11 +1190,12 @@ end Aux
 /-- **Binary arithmetic between two actions** (`a.add(b)` etc. = join on a new dimension
 `**datatype**` with `match_coord_values`, then reduce it): if it succeeds, the node at every
 position is the method applied to `a`'s node and `b`'s node at that named position, in this
-order, and the dimensions are `a`'s. -/
+order, and the dimensions are `a`'s followed by those only `b` has (the operands may have different
+dimensions: each is broadcast by name along the dimensions it lacks). -/
 theorem c13_value_arith (fn : String) (a b r : NodeArray)
     (hda : a.findDim datatypeDim = none) (hdb : b.findDim datatypeDim = none)
     (h : arithAction fn a b = .ok r) :
-    r.dims.map (·.name) = a.dims.map (·.name) ∧
+    r.dims.map (·.name) = a.dims.map (·.name) ++ (b.dims.map (·.name)).filter (fun n => (a.findDim n).isNone) ∧
     ∀ ix, r.node ix = mkNode { fn := fn } [a.node (ix.set datatypeDim 0), b.node (ix.set datatypeDim 1)] := by
   simp only [arithAction, bind, Except.bind] at h
   split at h
@@ -1164,16 +1224,23 @@ theorem c13_value_arith (fn : String) (a b r : NodeArray)
           exact this
         have hzn : z.name ≠ "" := by rw [hjd.1]; decide
         have hsz : j.dimSize z.name = 2 := by simp [NodeArray.dimSize, hfd, hz2]
-        simp only [reduce, defaultDim, hdims, ↓reduceIte, pure, Except.pure, bind, Except.bind, reduceBatched_zero,
+        simp only [reduce, defaultDim, hdims, ↓reduceIte, bind, Except.bind, reduceBatched_zero,
           reduceFinish, hfd, withYields] at h
         simp at h
         cases h
         refine ⟨?_, ?_⟩
         · simp only [reduceCore, hdims, allIndexed_names]
           have : dropDim (z :: rest) z.name = dropDim rest z.name := by simp [dropDim]
+          have hfil : (b'.dims.filter (fun y => (a.findDim y.name).isNone)).map (·.name)
+              = (b.dims.map (·.name)).filter (fun n => (a.findDim n).isNone) := by
+            rw [← hnames, List.filter_map]; rfl
           rw [this, dropDim_of_not_mem]
-          · exact hjd.2
-          · rw [hjd.2, hjd.1, ← findDim_none_iff]; exact hda
+          · rw [hjd.2, hfil]
+          · rw [hjd.2, hjd.1, hfil]
+            intro hmem
+            rcases List.mem_append.mp hmem with hm | hm
+            · exact ((findDim_none_iff a datatypeDim).mp hda) hm
+            · exact ((findDim_none_iff b datatypeDim).mp hdb) (List.mem_filter.mp hm).1
         · intro ix
           simp only [reduceCore, NodeArray.along, hsz]
           have e0 : j.node (ix.set z.name 0) = a.node (ix.set datatypeDim 0) := by
@@ -1197,13 +1264,13 @@ theorem valsAlong_indep {V : Type} (S : Sem V) (a : NodeArray) (d e : String) (i
     (hI : Indep a e) : valsAlong S a d (ix.set e j) = valsAlong S a d ix := by
   simp only [valsAlong, along_indep a d e ix j hne hI]
 
-theorem valsAlong_square (src : Nat → Rat) (a : NodeArray) (d : String) (ix : Ix) :
-    valsAlong (ratSem src) (arithScalar "pow" (.num 2) a) d ix = (valsAlong (ratSem src) a d ix).map (fun x => x * x) := by
+theorem valsAlong_square (src : Nat → Rat) (unk : Unk) (a : NodeArray) (d : String) (ix : Ix) :
+    valsAlong (ratSem src unk) (arithScalar "pow" (.num 2) a) d ix = (valsAlong (ratSem src unk) a d ix).map (fun x => x * x) := by
   simp only [valsAlong, NodeArray.along, List.map_map]
   apply List.map_congr_left
   intro i _
   simp only [Function.comp]
-  have := eval_square src a (ix.set d i)
+  have := eval_square src unk a (ix.set d i)
   simpa [NodeArray.dimSize, NodeArray.findDim, arithScalar, map, withYields] using this
 
 theorem restDims_names (a : NodeArray) (d : String) : (restDims a d).map (·.name) = (a.dims.map (·.name)).filter (· ≠ d) := by
@@ -1237,15 +1304,15 @@ end Aux
 rationals: every node of `a.std(d, batch_size=b)` is `pow(e, 1/2)` where `e` evaluates to
 `Σx²/n − (Σx/n)²` over the `n` values `x` along `d` — which by `c13_mean_std_identity` is the
 population variance (what `numpy.std` takes the root of). -/
-theorem c13_mean_std_std (src : Nat → Rat) (a : NodeArray) (d : String) (b : Nat) (keep : Bool)
+theorem c13_mean_std_std (src : Nat → Rat) (unk : Unk) (a : NodeArray) (d : String) (b : Nat) (keep : Bool)
     (kw : List (String × Static))
     (hd : d ≠ "") (hs : a.scalar? d = none) (hfresh : BatchFresh a d)
     (hdt : Indep a datatypeDim) (hnodt : a.findDim datatypeDim = none) (hdd : datatypeDim ≠ d)
     (hb : 1 < b) (hbn : b < a.dimSize d) (r : NodeArray) (h : std d b keep kw a = .ok r) :
     ∀ ix, ∃ e, r.node ix = mkNode { fn := "pow", tmpl := [.inp 0, .lit (.num (1 / 2))] } [e] ∧
-      e.eval (ratSem src) =
-        ((valsAlong (ratSem src) a d ix).map (fun x => x * x)).sum / (a.dimSize d : Rat)
-          - ((valsAlong (ratSem src) a d ix).sum / (a.dimSize d : Rat)) * ((valsAlong (ratSem src) a d ix).sum / (a.dimSize d : Rat)) := by
+      e.eval (ratSem src unk) =
+        ((valsAlong (ratSem src unk) a d ix).map (fun x => x * x)).sum / (a.dimSize d : Rat)
+          - ((valsAlong (ratSem src unk) a d ix).sum / (a.dimSize d : Rat)) * ((valsAlong (ratSem src unk) a d ix).sum / (a.dimSize d : Rat)) := by
   have hdim : (a.findDim d).isSome := dimSize_pos_of_lt a d b hbn
   have hnb : ¬ (b ≤ 1 ∨ b ≥ a.dimSize d) := by omega
   simp only [std, defaultDim, hd, ↓reduceIte, bind, Except.bind] at h
@@ -1264,11 +1331,11 @@ theorem c13_mean_std_std (src : Nat → Rat) (a : NodeArray) (d : String) (b : N
           · rename_i diff hdiff
             cases h
             -- the two operands of the subtraction
-            obtain ⟨hmd, hmv⟩ := c13_mean_std_mean src a d b keep kw hd hs hfresh m hm
+            obtain ⟨hmd, hmv⟩ := c13_mean_std_mean src unk a d b keep kw hd hs hfresh m hm
             have hdimA2 : ((arithScalar "pow" (.num 2) a).findDim d).isSome := hdim
-            obtain ⟨r0, hr0, hdims0, -, hv0⟩ := c13_reduce (ratSem src) (backendPayload "sum" kw)
+            obtain ⟨r0, hr0, hdims0, -, hv0⟩ := c13_reduce (ratSem src unk) (backendPayload "sum" kw)
               (arithScalar "pow" (.num 2) a) d keep hd hdimA2 hs
-            obtain ⟨hsd, -, hsv⟩ := c13_batch_invariant (ratSem src) _ (sum_batchable src kw)
+            obtain ⟨hsd, -, hsv⟩ := c13_batch_invariant (ratSem src unk) _ (sum_batchable src unk kw)
               (arithScalar "pow" (.num 2) a) d b keep hd hs (batchFresh_arithScalar _ _ a d hfresh) s r0 hsum hr0
             have hnoA : datatypeDim ∉ a.dims.map (·.name) := (findDim_none_iff a datatypeDim).mp hnodt
             have hnorm : (arithScalar "divide" (natStatic (a.dimSize d)) s).findDim datatypeDim = none := by
@@ -1285,15 +1352,15 @@ theorem c13_mean_std_std (src : Nat → Rat) (a : NodeArray) (d : String) (b : N
             intro ix
             refine ⟨diff.node ix, rfl, ?_⟩
             have vA : ∀ (a' : NodeArray) (ix' : Ix),
-                (List.range (a'.dimSize d)).map (fun i => (a'.node (ix'.set d i)).eval (ratSem src))
-                  = valsAlong (ratSem src) a' d ix' := by
+                (List.range (a'.dimSize d)).map (fun i => (a'.node (ix'.set d i)).eval (ratSem src unk))
+                  = valsAlong (ratSem src unk) a' d ix' := by
               intro a' ix'; simp [valsAlong, NodeArray.along, Function.comp_def]
-            have hX : (s.node (ix.set datatypeDim 0)).eval (ratSem src)
-                = ((valsAlong (ratSem src) a d ix).map (fun x => x * x)).sum := by
-              rw [hsv, hv0, vA, apply_sum, valsAlong_square, valsAlong_indep (ratSem src) a d datatypeDim ix 0 hdd hdt]
-            have hY : (m.node (ix.set datatypeDim 1)).eval (ratSem src)
-                = (valsAlong (ratSem src) a d ix).sum / (a.dimSize d : Rat) := by
-              rw [hmv, valsAlong_indep (ratSem src) a d datatypeDim ix 1 hdd hdt]
+            have hX : (s.node (ix.set datatypeDim 0)).eval (ratSem src unk)
+                = ((valsAlong (ratSem src unk) a d ix).map (fun x => x * x)).sum := by
+              rw [hsv, hv0, vA, apply_sum, valsAlong_square, valsAlong_indep (ratSem src unk) a d datatypeDim ix 0 hdd hdt]
+            have hY : (m.node (ix.set datatypeDim 1)).eval (ratSem src unk)
+                = (valsAlong (ratSem src unk) a d ix).sum / (a.dimSize d : Rat) := by
+              rw [hmv, valsAlong_indep (ratSem src unk) a d datatypeDim ix 1 hdd hdt]
             rw [hdn ix, eval_subtract, natStatic, eval_divide, eval_square, hX, hY]
 
 /-- `stack` / `concatenate` (`_combine_nodes`): on a dimension of size ≠ 1 it IS the reduce with
@@ -1338,18 +1405,18 @@ example : (match reduce (backendPayload "sum" []) none "d1" 2 false exA with
       [mkNode (backendPayload "sum" []) [mkNode (backendPayload "sum" []) [.src 5, .src 6], mkNode (backendPayload "sum" []) [.src 7, .src 8]],
        .src 9]) := rfl
 
-example : ∃ r, mean "d1" 2 true [] exA = .ok r ∧ r.dims.map (·.name) = ["d0", "d1"] ∧
-    ∀ ix, (r.node ix).eval (ratSem (fun i => (i : Rat))) = (valsAlong (ratSem (fun i => (i : Rat))) exA "d1" ix).sum / (5 : Nat) := by
+example (unk : Unk) : ∃ r, mean "d1" 2 true [] exA = .ok r ∧ r.dims.map (·.name) = ["d0", "d1"] ∧
+    ∀ ix, (r.node ix).eval (ratSem (fun i => (i : Rat)) unk) = (valsAlong (ratSem (fun i => (i : Rat)) unk) exA "d1" ix).sum / (5 : Nat) := by
   refine ⟨_, rfl, by decide, ?_⟩
-  exact (c13_mean_std_mean _ exA "d1" 2 true [] (by decide) (by decide) (exA_fresh _) _ rfl).2
+  exact (c13_mean_std_mean _ unk exA "d1" 2 true [] (by decide) (by decide) (exA_fresh _) _ rfl).2
 
 example : ([1, 2, 4] : List Rat) ≠ [] := by simp
 
-example : ∃ r, std "d1" 2 false [] exA = .ok r ∧ ∀ ix, ∃ e,
+example (unk : Unk) : ∃ r, std "d1" 2 false [] exA = .ok r ∧ ∀ ix, ∃ e,
     r.node ix = mkNode { fn := "pow", tmpl := [.inp 0, .lit (.num (1 / 2))] } [e] := by
   refine ⟨_, rfl, ?_⟩
   intro ix
-  obtain ⟨e, he, -⟩ := c13_mean_std_std (fun i => (i : Rat)) exA "d1" 2 false [] (by decide) (by decide) (exA_fresh _)
+  obtain ⟨e, he, -⟩ := c13_mean_std_std (fun i => (i : Rat)) unk exA "d1" 2 false [] (by decide) (by decide) (exA_fresh _)
     exA_indep (by decide) (by decide) (by decide) (by decide) _ rfl ix
   exact ⟨e, he⟩
 
